@@ -2,6 +2,7 @@ import Tau.Proofs.Tokeniser
 import Tau.Pratt
 import Tau.Proofs.PrattPP
 import Tau.Proofs.TokRT
+import Tau.Proofs.TokGaps
 /-
   C05 — Condition grammar: fixed precedence, associativity and parentheses.
 -/
@@ -134,5 +135,31 @@ example :
   · exact ⟨⟨'n', [], rfl, by decide⟩, by decide, by decide, by decide, by decide⟩
   · exact ⟨⟨'3', [], by decide, by decide⟩, by decide, by decide⟩
   · exact ⟨⟨'B', [], rfl, by decide⟩, by decide, by decide, by decide, by decide⟩
+
+/-- **Extra blanks never change the tokens**: any number of blanks in front of the text, and after
+    every token any number beyond the one that ends it (`gs`, token by token; keywords such as
+    `all`, `of`, `int` still touch their parenthesis) — the tokeniser returns the same token list. -/
+theorem extra_blanks_tokens (num : Int → Str) (ts : List Token) (h : Renderable num ts) (k : Nat)
+    (gs : List Nat) : tokenise (sp k ++ renderG num ts gs) = .ok ts :=
+  tokenise_renderG num ts h k gs
+
+/-- **Extra blanks never change what a condition means**: text with arbitrary extra blanks
+    tokenises and parses to the tree of the condition (so to the same verdicts on every document). -/
+theorem extra_blanks_tree (num : Int → Str) (c : Cond) (h : c.good num) (k : Nat) (gs : List Nat) :
+    (match tokenise (sp k ++ renderG num c.pp gs) with
+     | .ok ts => parse ts
+     | .error e => .error e) = .ok c.toExpr := by
+  rw [tokenise_renderG num c.pp (Cond.pp_renderable num c h) k gs]
+  exact parse_pp c
+
+/-- With no extra blanks this is the plain rendering. -/
+theorem no_extra_blanks (num : Int → Str) (ts : List Token) : renderG num ts [] = render num ts :=
+  renderG_nogaps num ts
+
+/-- Non-vacuity: three blanks in front, then gaps of 1 + (2, 0, 5, 0, 1, …) blanks. -/
+example :
+    let num : Int → Str := fun i => (toString i).toList
+    String.ofList (sp 3 ++ renderG num [.ident ['A'], .op .and, .modifier .int, .lparen, .ident ['n'], .rparen, .op .gt, .int 3] [2, 0, 5, 0, 1])
+      = "   A   and int(      n )  > 3 " := by decide
 
 end Tau.C05
